@@ -15,7 +15,15 @@ M = 'biogeme.models.'
 _UD = {'util': 'dict[int, Expression]', 'av': 'dict[int, Expression] | None'}
 
 # ------------------------------------------------------------------------------------------------ logit
-_LL = {k: v.replace('choice', 'i') for k, v in N.LOGLOGIT_ENSURES.items()}
+import re
+
+
+def _rename(text, old, new):
+    """rename the PARAMETER `old` (not the attribute .old, not part of another identifier)"""
+    return re.sub(r'(?<![\w.])' + old + r'(?!\w)', new, text)
+
+
+_LL = {k: _rename(v, 'choice', 'i') for k, v in N.LOGLOGIT_ENSURES.items()}
 contract(M + 'logit.loglogit', P, types=_UD, modifies=[],
          requires={'python_dict': 'c05c_dict_wf(av)'},
          raises={'TypeError': N._NOT_OPERAND.format('i')},
@@ -40,3 +48,17 @@ for V, av, ch in cands:
         detail = f'loglogit(V={V}, av={av}, {ch}) = {got!r} (logit {gp!r}); kernel over the arguments gives {want!r}'
         break
 ''')
+
+
+_CHILD = "typed(result.child, 'LogLogit')"
+_CHILD_ENS = {k: _rename(v.replace('self.', _CHILD + '.'), 'choice', 'i') for k, v in N._ENS.items()}
+contract(M + 'logit.logit', P, types=_UD, modifies=[],
+         requires={'python_dict': 'c05c_dict_wf(av)'},
+         raises={'TypeError': N._NOT_OPERAND.format('i')},
+         ensures={'value_is_exp_of_child': "c05c_val(result) == app('numpy.exp', c05c_val(result.child))",
+                  'child_is_loglogit_node': 'isinstance(result.child, LogLogit)',
+                  **{'child_' + k: v for k, v in _CHILD_ENS.items()}},
+         note='logit returns exp(.) of a log-logit node built from the same arguments (same dictionaries: keys by position, '
+              'values by key, chosen alternative): its value is exp of the kernel proved for loglogit; exp(-log s) = 1/s and '
+              'exp(-inf) = 0 are lemmas about the uninterpreted transcendental functions (checked numerically by the '
+              'bounded translation validation)')
